@@ -434,6 +434,7 @@ func C15(c *vf.Ctx) {
 		run("simulation", c15Bounds{4, 5, 2, 3, false}, "terminal", false, "num=40000", 2)
 		run("transitions", c15Bounds{3, 3, 1, 1, false}, "edges", true, "", 3)
 		run("after-close", c15Bounds{3, 3, 0, 1, true}, "edges", true, "", 2)
+		run("after-close-terminal", c15Bounds{4, 4, 0, 0, true}, "terminal", true, "", 2)
 	}
 	wg.Wait()
 	farm.drain()
